@@ -71,6 +71,7 @@ class ServerModel:
             ops.append(('loss', s))
             if s in tw.pend:
                 ops.append(('att', s))
+                ops.append(('att-after-stray', s))
                 continue
             for ns in NSS:
                 if (s, ns) not in tw.conn:
@@ -182,6 +183,20 @@ class ServerModel:
             for w in (tw.s, tw.a):
                 w.script['returns'] = {'ret': (b'r', 1)}
             self._do(tw, op, lambda w: w.recv(w.slot[s], f0))
+        elif kind == 'att-after-stray':
+            # a text frame arrives where an attachment is due (both twins
+            # reject it), then the attachments that were due: one operation,
+            # so that no state merge can separate the fault from what
+            # follows it
+            _, s = op
+            stray = tw.s.encode(2, '/x', 9, ['ev', 'stray'])[0]
+            self._do(tw, f'{op}: stray text frame',
+                     lambda w: w.recv(w.slot[s], stray))
+            for w in (tw.s, tw.a):
+                w.script['returns'] = {'ret': (b'r', 1)}
+            for f0 in tw.pend.pop(s):
+                self._do(tw, f'{op}: attachment',
+                         lambda w: w.recv(w.slot[s], f0))
         elif kind == 'emitcb':
             _, s, ns = op
             tw.ncb += 1
@@ -539,6 +554,9 @@ class PubSubModel:
                     ops.append(('ack', c))
         for h in (0, 1):
             ops.append(('close', h))
+            if tw.member:
+                ops.append(('publish-fails', 'close', h))
+                ops.append(('publish-fails', 'emit', h))
         return ops
 
     def _sid(self, cl, c):
@@ -606,6 +624,48 @@ class PubSubModel:
             _, h = op
             self._do(tw, op, lambda cl: cl.hosts[h].api('close_room', 'r'))
             tw.member.clear()
+        elif kind == 'publish-fails':
+            # fault: the backend refuses one publish on host h while the
+            # application closes the room / emits to it; both twins must
+            # fail the same way and leave the same state behind, which the
+            # emits that follow (same operation: no state merge in between)
+            # make visible
+            _, what, h = op
+
+            def faulty(cl):
+                m = cl.hosts[h].sio.manager
+                real = m._publish
+                state = {'n': 0}
+                if cl.hosts[h].is_async:
+                    async def pub(data):
+                        state['n'] += 1
+                        if state['n'] == 1:
+                            raise OSError('scripted publish fault')
+                        return await real(data)
+                else:
+                    def pub(data):
+                        state['n'] += 1
+                        if state['n'] == 1:
+                            raise OSError('scripted publish fault')
+                        return real(data)
+                m._publish = pub
+                try:
+                    if what == 'close':
+                        return cl.hosts[h].api('close_room', 'r')
+                    return cl.hosts[h].api('emit', 'e', 2, to='r')
+                finally:
+                    m._publish = real
+            self._do(tw, op, faulty)
+            for via in (0, 1):
+                self._do(tw, f'{op}: emit to the room via {via} afterwards',
+                         lambda cl: cl.hosts[via].api('emit', 'e', 3,
+                                                      to='r'))
+            if what == 'close':
+                # whatever is left of the room is the same on both sides;
+                # the model forgets the membership conservatively
+                self._do(tw, f'{op}: close again', lambda cl: cl.hosts[
+                    h].api('close_room', 'r'))
+                tw.member.clear()
         elif kind == 'emitcb':
             _, c, h = op
             o = self._do(tw, op, lambda cl: cl.hosts[h].api(
